@@ -548,6 +548,69 @@ func (s *sysWorld) apply(t tamper, q dns.Question, m *dns.Msg) *dns.Msg {
 			}
 			m.Answer, m.Ns, m.Rcode = nil, ns, dns.RcodeSuccess
 		}
+	case "padkey":
+		// The DNSKEY answers of the zone(s) this server is authoritative for are PADDED with a key the attacker
+		// holds; the genuine RRSIG stays (it no longer covers the RRset), so a validated fetch of that RRset
+		// fails. Everything below is then signed with the padded key:
+		//   denyds  referrals lose their DS RRset and the DS query is answered NODATA with SOA + an NSEC
+		//           "child NS RRSIG NSEC" (a well-formed proof of an insecure delegation)
+		//   data    data answers are altered and re-signed
+		//   deny    positive data answers are replaced by a NODATA with SOA + a matching NSEC without the type
+		evilFor := func(zone string) *l3.KeyPair { return poolPair(1500, strings.ToLower(zone), 256) }
+		if q.Qtype == dns.TypeDNSKEY {
+			if z := s.w.Zones[strings.ToLower(q.Name)]; z != nil && z.Signed && len(m.Answer) > 0 {
+				m.Answer = append([]dns.RR{evilFor(z.Name).Key}, m.Answer...)
+			}
+			break
+		}
+		z := s.zoneOfSigs(m)
+		if z == nil || !z.Signed {
+			break
+		}
+		evil := evilFor(z.Name)
+		signed := func(set ...dns.RR) []dns.RR {
+			return append(set, signWith(evil, z.Name, set, now.Add(-time.Hour), now.Add(time.Hour)))
+		}
+		soa := dns.Copy(z.SOA)
+		switch t.arg {
+		case "denyds":
+			child := ""
+			each(func(rr dns.RR) dns.RR {
+				if rr.Header().Rrtype == dns.TypeDS {
+					child = rr.Header().Name
+					return nil
+				}
+				if isSigFor(rr, dns.TypeDS) {
+					return nil
+				}
+				return rr
+			})
+			if q.Qtype == dns.TypeDS && child != "" {
+				nsec := &dns.NSEC{Hdr: dns.RR_Header{Name: child, Rrtype: dns.TypeNSEC, Class: dns.ClassINET, Ttl: 300},
+					NextDomain: "zz-" + child, TypeBitMap: []uint16{dns.TypeNS, dns.TypeRRSIG, dns.TypeNSEC}}
+				m.Answer, m.Rcode = nil, dns.RcodeSuccess
+				m.Ns = append(signed(soa), signed(nsec)...)
+			}
+		case "data":
+			if q.Qtype != dns.TypeDS && len(m.Answer) > 0 {
+				var out []dns.RR
+				for _, set := range rrsets(m.Answer) {
+					var forged []dns.RR
+					for _, rr := range set {
+						forged = append(forged, flipRdata(dns.Copy(rr)))
+					}
+					out = append(out, signed(forged...)...)
+				}
+				m.Answer = out
+			}
+		case "deny":
+			if q.Qtype != dns.TypeDS && len(m.Answer) > 0 && m.Authoritative {
+				nsec := &dns.NSEC{Hdr: dns.RR_Header{Name: q.Name, Rrtype: dns.TypeNSEC, Class: dns.ClassINET, Ttl: 300},
+					NextDomain: "zz-" + q.Name, TypeBitMap: []uint16{dns.TypeRRSIG, dns.TypeNSEC}}
+				m.Answer, m.Rcode = nil, dns.RcodeSuccess
+				m.Ns = append(signed(soa), signed(nsec)...)
+			}
+		}
 	case "replay-old":
 		// data the zone published in the past, with the signatures of that time (now expired):
 		// made with the zone's real key, so only the validity window stands in the way
@@ -984,19 +1047,24 @@ func genL3(r *vlib.R, emit func(string)) int {
 		{"replay-old", "-", "data"}, {"replay-old", "-", "data"}, {"ds-to-soa", "-", "all"}, {"ds-to-nsec", "-", "all"}, {"ds-to-nssig", "-", "all"},
 		{"wildcard-replay", "-", "data"}, {"wildcard-replay", "-", "data"}, {"ds-childside", "-", "all"},
 		{"rcode", "1", "data"}, {"rcode", "4", "data"}, {"rcode", "5", "data"}, {"rcode", "9", "data"}, {"rcode", "3", "all"},
-		{"dname-retarget", "evil", "data"}, {"dname-retarget", "evil", "data"}, {"dname-retarget", "insert", "data"}, {"ds-replay-nsec", "-", "all"}}
+		{"dname-retarget", "evil", "data"}, {"dname-retarget", "evil", "data"}, {"dname-retarget", "insert", "data"}, {"ds-replay-nsec", "-", "all"},
+		{"padkey", "denyds", "all"}, {"padkey", "data", "all"}, {"padkey", "deny", "all"}, {"padkey", "data", "all"}}
 	if keys == "pairkk" {
 		kinds = append(kinds, tk{"clonekey", "-", "all"}, tk{"clonekey", "-", "all"}, tk{"evilkey", "sametag", "all"}, tk{"evilkey", "sametag", "all"})
 	}
 	if zone == "s" && r.Chance(1, 6) {
 		// downgrade attempts: the parent's referral loses the DS in some way AND the child serves forged unsigned data
 		nt = 0
-		how := vlib.Pick(r, []string{"dropds", "ds-to-nssig", "ds-to-nssig", "ds-to-soa", "ds-to-nsec", "swapds", "ds-childside", "ds-childside", "ds-replay-nsec", "ds-replay-nsec"})
+		how := vlib.Pick(r, []string{"dropds", "ds-to-nssig", "ds-to-nssig", "ds-to-soa", "ds-to-nsec", "swapds", "ds-childside", "ds-childside", "ds-replay-nsec", "ds-replay-nsec", "padkey", "padkey", "padkey"})
 		parent := "tld"
 		if zsame == "t" {
 			parent = "zone"
 		}
-		e(fmt.Sprintf("l3 tamper %s %s - all", parent, how))
+		if how == "padkey" {
+			e(fmt.Sprintf("l3 tamper %s padkey denyds all", parent))
+		} else {
+			e(fmt.Sprintf("l3 tamper %s %s - all", parent, how))
+		}
 		e(fmt.Sprintf("l3 tamper zone %s - data", vlib.Pick(r, []string{"forge-answer", "forge-answer", "dropsigs", "replay-old"})))
 		for _, q := range qs {
 			if strings.HasSuffix(q.name, "zone.test.") && !strings.HasSuffix(q.name, "sub.zone.test.") {
